@@ -20,7 +20,6 @@ import (
 	"github.com/johannesboyne/gofakes3"
 	"github.com/johannesboyne/gofakes3/backend/s3mem"
 	bs "google.golang.org/genproto/googleapis/bytestream"
-	rpcstatus "google.golang.org/genproto/googleapis/rpc/status"
 	"google.golang.org/grpc"
 	"google.golang.org/grpc/codes"
 	"google.golang.org/grpc/status"
@@ -374,13 +373,13 @@ func (b *grpcBackend) FetchBlob(ctx context.Context, req *asset.FetchBlobRequest
 			if hash, ok := sriToHex(strings.TrimPrefix(q.Value, "sha256-")); ok {
 				if n, ok := b.hasDigest(hash, -1); ok {
 					b.add(event{op: "fetchblob", name: name, hit: true})
-					return &asset.FetchBlobResponse{Status: &rpcstatus.Status{Code: 0}, BlobDigest: &pb.Digest{Hash: hash, SizeBytes: n}}, nil
+					return &asset.FetchBlobResponse{Status: status.New(codes.OK, "").Proto(), BlobDigest: &pb.Digest{Hash: hash, SizeBytes: n}}, nil
 				}
 			}
 		}
 	}
 	b.add(event{op: "fetchblob", name: name, hit: false})
-	return &asset.FetchBlobResponse{Status: &rpcstatus.Status{Code: int32(codes.NotFound), Message: "not found"}}, nil
+	return &asset.FetchBlobResponse{Status: status.New(codes.NotFound, "not found").Proto()}, nil
 }
 
 func (b *grpcBackend) UpdateActionResult(ctx context.Context, req *pb.UpdateActionResultRequest) (*pb.ActionResult, error) {
